@@ -34,6 +34,7 @@ type jent struct {
 	broker   int32
 	key, ver int16
 	ktype    int8 // find-coordinator requests: the KeyType the broker decoded
+	magic    int8 // produce requests: the record format (RecordSet.Version) the broker decoded
 }
 
 type fcAnswer struct {
@@ -95,6 +96,9 @@ func (f *fake) serve(b *fakeBroker, conn net.Conn) {
 		e := jent{broker: b.id, key: int16(msg.ApiKey()), ver: ver}
 		if q, ok := msg.(*findcoordinator.Request); ok {
 			e.ktype = q.KeyType
+		}
+		if q, ok := msg.(*produce.Request); ok && len(q.Topics) > 0 && len(q.Topics[0].Partitions) > 0 {
+			e.magic = q.Topics[0].Partitions[0].RecordSet.Version
 		}
 		f.journal = append(f.journal, e)
 		if _, ok := msg.(*meta.Request); ok && f.mdMode != 0 {
@@ -217,6 +221,9 @@ func encJent(e jent) string {
 	if e.key == 10 {
 		s += ":" + zs(int64(e.ktype))
 	}
+	if e.key == 0 {
+		s += ":" + zs(int64(e.magic))
+	}
 	return s
 }
 
@@ -265,6 +272,9 @@ func genVers(r *rand.Rand) (map[int16][2]int16, map[string]bool) {
 			v[k] = [2]int16{0, 3}
 		case k == 3: // keep ControllerID (v1+) in the client's view
 			v[k] = [2]int16{0, 1 + int16(r.Intn(10))}
+		case k == 0 && r.Intn(4) == 0: // the boundary between message sets and record batches
+			v[k] = [2]int16{0, 2 + int16(r.Intn(3))}
+			feat["produce-v2..4"] = true
 		case k == 10 && r.Intn(4) != 0: // KeyType is on the wire from v1 on
 			v[k] = [2]int16{0, 1 + int16(r.Intn(3))}
 			feat["fc>=v1"] = true
@@ -290,6 +300,9 @@ type e2eReq struct {
 	fc       string
 	feat     string
 }
+
+// scenarios of the e2e family whose wait for a refresh exceeded its bound (breaker at 3)
+var e2eSlow int
 
 func runE2E(r *rand.Rand, scenario int) {
 	f := &fake{brokers: map[string]*fakeBroker{}, resume: make(chan struct{})}
@@ -357,7 +370,12 @@ func runE2E(r *rand.Rand, scenario int) {
 	f.md = md
 
 	ttl := 30 * time.Millisecond
-	tr := &kafka.Transport{Dial: f.dial, MetadataTTL: ttl, ClientID: "c12", DialTimeout: 3 * time.Second}
+	// MetadataTTL and IdleTimeout are set explicitly and far apart: a refresh period taken from the
+	// wrong option shows in the latency bound below
+	tr := &kafka.Transport{Dial: f.dial, MetadataTTL: ttl, IdleTimeout: 10 * time.Minute, ClientID: "c12", DialTimeout: 3 * time.Second}
+	// "requests follow the new leader within one metadata TTL plus a round trip": the bound checked
+	// is 10 configured TTLs plus 3s of slack for a loaded machine
+	followBound := 10*ttl + 3*time.Second
 	h, p := hostOf(boot.addr)
 	bootAddr := kafka.TCP(fmt.Sprintf("%s:%d", h, p))
 	defer func() {
@@ -376,17 +394,18 @@ func runE2E(r *rand.Rand, scenario int) {
 		return cloneMd(f.md)
 	}
 	// wait until the transport's cached view is the cluster's current state
-	sync := func(what string) bool {
+	sync := func(what string, bound time.Duration) bool {
 		want := encMd(sortedMd(current()))
 		t0 := time.Now()
-		for time.Since(t0) < 15*time.Second {
+		for time.Since(t0) < bound {
 			res, err := rt(&meta.Request{})
 			if err == nil && encMd(res.(*meta.Response)) == want {
 				return true
 			}
 			time.Sleep(2 * time.Millisecond)
 		}
-		emit("e2efail", what, "the cached metadata never reflected the cluster state within 15s (MetadataTTL 30ms)", "scenario")
+		e2eSlow++
+		emit("e2efail", what, fmt.Sprintf("the cached metadata did not reflect the cluster state within %v (bound: 10 x MetadataTTL %v + 3s slack; IdleTimeout 10m): requests do not follow the new leader within one metadata TTL plus a round trip", bound, ttl), "scenario")
 		return false
 	}
 	vers := encVers(all)
@@ -566,16 +585,23 @@ func runE2E(r *rand.Rand, scenario int) {
 				emit("e2elag", strings.Join([]string{bootS, encMd(before), encMd(after), vers, client, q.enc, "-"}, " "), res, fs+","+pf+",during-refresh")
 			}
 		}
-		if !sync(pf) {
+		bound := followBound
+		if phase == 0 {
+			bound = 15 * time.Second // the first view: connection set-up, not a refresh period
+		}
+		if !sync(pf, bound) {
 			return
 		}
 		lag := time.Since(t0)
-		lagf := "lag<=ttl"
+		lagf := "lag<=1ttl"
 		if lag > ttl {
-			lagf = "lag<=ttl+50ms"
+			lagf = "lag<=2ttl"
 		}
-		if lag > ttl+50*time.Millisecond {
-			lagf = "lag>ttl+50ms"
+		if lag > 2*ttl {
+			lagf = "lag<=10ttl"
+		}
+		if lag > 10*ttl {
+			lagf = "lag<=10ttl+3s"
 		}
 		if phase == 0 {
 			lagf = "first-view"
@@ -587,7 +613,7 @@ func runE2E(r *rand.Rand, scenario int) {
 			res := doReq(q)
 			emit("e2e", strings.Join([]string{bootS, encMd(m), vers, client, q.enc, q.fc}, " "), res, fs+","+pf+","+lagf+","+q.feat)
 			if strings.HasPrefix(q.enc, "ctl="+zs(19)) {
-				if !sync(pf + "-after-create-topics") {
+				if !sync(pf+"-after-create-topics", followBound) {
 					return
 				}
 			}
